@@ -115,6 +115,20 @@ def gen_leaf(rng, t, typed=True):
                 if t == "integer" and "exclusiveMinimum" in s and hk == "exclusiveMaximum":
                     gap = max(gap, 2)   # an integer strictly between the bounds must exist (satisfiable schemas only)
                 s[hk] = lo + gap
+                if rng.random() < 0.25:
+                    # bounds of mixed numeric spelling are legal for any numeric type (an integer between them exists)
+                    if rng.random() < 0.5:
+                        s[hk] = lo + gap + 0.5
+                    else:
+                        k0 = "minimum" if "minimum" in s else "exclusiveMinimum"
+                        s[k0] = s[k0] - 0.5
+            elif rng.random() < 0.3:
+                # upper bound only / bounds around zero
+                k0 = "minimum" if "minimum" in s else "exclusiveMinimum"
+                v0 = s.pop(k0)
+                s[rng.choice(["maximum", "exclusiveMaximum"])] = rng.choice([0, v0, -v0])
+                if rng.random() < 0.5:
+                    s[k0] = min(-10.5, s.get("maximum", s.get("exclusiveMaximum")) - 3.5) if rng.random() < 0.5 else -20
         elif r < 0.65:
             s["multipleOf"] = rng.choice([2, 3, 5, 10])
         elif r < 0.8:
